@@ -204,6 +204,15 @@ class Gate:
             )
         else:
             self.classical_control_value = classical_control_value
+        if self.classical_controls is not None and not (
+            0
+            <= self.classical_control_value
+            < 2 ** len(self.classical_controls)
+        ):
+            raise ValueError(
+                "classical_control_value must be a non-negative integer "
+                "smaller than 2 ** len(classical_controls)."
+            )
         self.control_value = control_value
         self.arg_value = arg_value
         self.arg_label = arg_label
